@@ -44,13 +44,16 @@ def contract(target, **opts):
     return deco
 
 
-def spec(fn=None, recursive=False, reads=()):
+def spec(fn=None, recursive=False, reads=(), returns='val', unfold=1):
     """Mark a SpecPy function.  ``recursive`` functions become uninterpreted
-    symbols unfolded once at the terms that occur."""
+    symbols (of result sort ``returns``: 'val' | 'bool' | 'outcome') unfolded
+    ``unfold`` level(s) deep at the terms that occur."""
     def deco(f):
         f._spec = True
         f._recursive = recursive
         f._reads = tuple(reads)
+        f._returns = returns
+        f._unfold = unfold
         return f
     if fn is not None:
         return deco(fn)
